@@ -18,7 +18,7 @@ from vlib import core
 
 PID = 'C14'
 META = {
-    'text': 'Theorems over a Gallina model of the 4-byte big-endian length-prefix reassembly loop (farm Hand, shelve comms Worker, LogSink) and of the legacy handshake wrapper (security.TwistedWrapper): for every byte stream and every way of cutting it into chunks the delivered payload sequence and the final reassembly state equal those of whole delivery (up to the first loseConnection/exception, which on the database channel only protocol-conformant streams never pass); frame/unframe round trip for every message list with payloads < 2^32; no delivery before phase 5 succeeds and none unless some blob passed signature check and echo comparison, bytes after the phase-5 packet are delivered afterwards in order exactly as a fresh protocol would receive them, a failed phase closes with nothing delivered ever; chunk independence of the handshake is proved from the phase-5 packet on (partial: the cut positions inside the packets of phases 1-5 are covered by the correspondence only). The model is tied to the three real dataReceived loops and to the real wrapper by correspondence on every cut of short streams and random cuts of long streams of real pickles.',
+    'text': 'Theorems over a Gallina model of the 4-byte big-endian length-prefix reassembly loop (farm Hand, shelve comms Worker, LogSink) and of the legacy handshake wrapper (security.TwistedWrapper): for every byte stream and every way of cutting it into chunks the delivered payload sequence and the final reassembly state equal those of whole delivery (up to the first loseConnection/exception, which on the database channel only protocol-conformant streams never pass); frame/unframe round trip for every message list with payloads < 2^32; no delivery before phase 5 succeeds and none unless some blob passed signature check and echo comparison, bytes after the phase-5 packet are delivered afterwards in order exactly as a fresh protocol would receive them, a failed phase closes with nothing delivered ever; the handshake outcome (challenge, close, deliveries, final state) is independent of the chunking, cuts inside the packets of phases 1-5 included, for every oracle that does not validate-and-echo the empty blob (refuted without that hypothesis; real PGP cannot). The model is tied to the three real dataReceived loops and to the real wrapper by correspondence on every cut of short streams and random cuts of long streams of real pickles.',
     'note': 'Trusted: Coq kernel; hand-written models Frame.v/Shake.v + correspondence driver drive_frame.py (fake transport honouring "no data after loseConnection", recording pickle.loads shim, table-driven PGP oracle, frozen clock/random for the challenge); Twisted delivers dataReceived calls sequentially and none after loseConnection or after an exception escaped; pickle decides decodable/closing per payload (oracles). No axioms.',
     'technique': 'Coq proof over an executable model + model/implementation correspondence (exhaustive small scope + seeded random)',
 }
